@@ -5,7 +5,7 @@
 export CARGO_NET_OFFLINE=true CARGO_TARGET_DIR=/tmp/confirm-target
 W=/tmp/confirm-wt
 for d in "$@"; do
-  P=$(basename $(dirname $(dirname $d))); P=${P#seed-}; n=$(basename $d); id="$P-$n"
+  P=$(basename $(dirname $(dirname $d))); P=${P#seed*-}; n=$(basename $d); n=$((n+${IDOFF:-0})); id="$P-$n"
   out=/verif/seeded/$id; [ -f $out/meta.json ] && { echo "skip $id"; continue; }
   git -C /repo worktree remove --force $W 2>/dev/null; git -C /repo worktree add -q --detach $W HEAD || continue
   cd $W
